@@ -183,6 +183,27 @@ BAD_EXPRS = ['contains("UBER"', 'amount >', 'lambda: 1', '{"a": 1}', '[1, 2]', '
 NON_WHITELISTED_BUT_CALLABLE = ['__import__("os")']  # parses with allowed nodes (Call/Name): rejected only at evaluation - not used as a load-time corruption
 
 
+_UNKNOWN = []
+
+
+def unknown_keys():
+    """Keys that are not properties of the rule language: misspellings, plus every attribute name of the loader's own rule objects (a property
+    table derived from the implementation must not let `name:` or `match_expr:` through)."""
+    if not _UNKNOWN:
+        keys = ['matchh', 'categroy', 'tag', 'descr', 'lett', 'pattern', 'description', 'filter', 'rule']
+        try:
+            import dataclasses
+            from tally import merchant_engine as me
+            for obj in vars(me).values():
+                if isinstance(obj, type) and dataclasses.is_dataclass(obj):
+                    keys += [f.name for f in dataclasses.fields(obj)]
+        except Exception:
+            pass
+        documented = {'match', 'category', 'subcategory', 'merchant', 'tags', 'priority', 'let', 'field'}
+        _UNKNOWN.extend(sorted({k for k in keys if k.lower() not in documented and k.isidentifier()}))
+    return _UNKNOWN
+
+
 def corrupt_merchants(top, secs, c):
     """-> (text, allowed line numbers) for corruption choice c (dict of ints) or None."""
     kind = c['kind']
@@ -208,7 +229,7 @@ def corrupt_merchants(top, secs, c):
         mark = None
     elif kind == 'unknown_key':
         pi = c['pos'] % len(props)
-        props[pi] = (['matchh', 'categroy', 'tag', 'descr', 'lett'][c['expr'] % 5], props[pi][1])
+        props[pi] = (unknown_keys()[c['expr'] % len(unknown_keys())], props[pi][1])
         mark = pi
     elif kind == 'bad_let':
         props.insert(0, ('let', ['= 5', '1x = 2', 'x == ', 'no equals sign', 'a b = 1', 'field.big = amount > 100', 'txn.x = 1', 'a.b = 2'][c['expr'] % 8]))
